@@ -9,7 +9,7 @@ def _luhn(digits):
     return str((10 - tot % 10) % 10)
 
 
-def replay_luhn(digits, what, pos=None, x=None, swap=None):
+def replay_luhn(digits, what, pos=None, x=None, swap=None, xbase=48):
     from cardutil import card
     import sys
     mode = '-O' if sys.flags.optimize else 'normal'
@@ -29,7 +29,7 @@ def replay_luhn(digits, what, pos=None, x=None, swap=None):
         return not accepted(good), '%s %s' % (good, 'validates' if accepted(good) else 'does not validate'), 'C15/valid'
     cells = list(good)
     if what == 'subst':
-        cells[pos] = str(x)
+        cells[pos] = chr(xbase + x)
     else:
         cells[pos], cells[swap] = cells[swap], cells[pos]
     bad = ''.join(cells)
